@@ -25,6 +25,8 @@ type PropConfig struct {
 	Budget     int      `json:"budget"`
 }
 
+var verifiedSomewhere map[string]bool
+
 type KnownFinding struct {
 	Property   string `json:"property"`
 	Obligation string `json:"obligation"` // function#kind and a stable description substring
@@ -224,6 +226,19 @@ func runProperty(e *Engine, prop, tier, propsFile, evidence, replays, knownFile 
 	if pc == nil {
 		fmt.Fprintln(os.Stderr, "unknown property", prop)
 		return 2
+	}
+	// functions whose contract some check verifies (any property): contracts outside this set are assumed
+	verifiedSomewhere = map[string]bool{}
+	for _, c := range cfg {
+		if c == nil {
+			continue
+		}
+		for _, f := range append(append([]string{}, c.Functions...), c.Sweep...) {
+			if i := strings.Index(f, "@"); i > 0 {
+				f = f[:i]
+			}
+			verifiedSomewhere[f] = true
+		}
 	}
 	var known []KnownFinding
 	if data, err := os.ReadFile(knownFile); err == nil {
@@ -494,6 +509,13 @@ func writeEvidence(e *Engine, path, prop, tier string, pc *PropConfig, results [
 		fns = append(fns, fi)
 		for _, x := range r.Externs {
 			assum["external: "+x] = true
+		}
+		for _, x := range r.Modular {
+			if !verifiedSomewhere[x] {
+				if ct := e.cf.Funcs[x]; ct != nil && ct.Trusted == "" {
+					assum["assumed contract (used by "+r.Key+", verified by no check): "+x] = true
+				}
+			}
 		}
 		for _, x := range r.Abstracted {
 			assum["abstracted callee (effects havocked by inferred write set): "+x] = true
